@@ -353,7 +353,7 @@ def run(tier):
     fams = [("NamesFull", "FilesSmall", "MethodsSmall", "ContextsQuick")]
     if thorough:
         fams = [("NamesFull", "FilesFull", "MethodsAll", "ContextsQuick"),
-                ("NamesFull", "FilesSmall", "MethodsTwo", "ContextsFull")]
+                ("NamesFull", "FilesSmall", "MethodsOne", "ContextsFull")]
     # 1a. vacuity guard for the actions (small constants, -coverage)
     c0 = _cfg(os.path.join(gen, "References_cov_%s.cfg" % tier),
               _constants("NamesFull", "FilesTwo", "MethodsOne", "ContextsOne", False) + "SPECIFICATION Spec\n" + inv + "CHECK_DEADLOCK FALSE\n")
@@ -364,6 +364,16 @@ def run(tier):
         if not res["coverage"].get(a):
             raise MachineryError("action %s of References.tla never taken (vacuous run): %s" % (a, res["coverage"]))
     chk.add_tlc(res)
+    # 1a'. the named deviations of the spec (today's implementation: prefix match of stage<N>, manifest keys split on the
+    #      wrong character) must be distinguishable on these alphabets: both invariants are expected to FAIL
+    for dev in ("PrefixRuleRoundTrips", "PathsepRuleClassifies"):
+        cd = _cfg(os.path.join(gen, "References_dev_%s_%s.cfg" % (dev, tier)),
+                  _constants("NamesFull", "FilesTwo", "MethodsOne", "ContextsOne", False) + "SPECIFICATION Spec\nINVARIANT %s\nCHECK_DEADLOCK FALSE\n" % dev)
+        rd = tlc.run_tlc("References", cd, timeout=600, workers=1, expect_violation=True)
+        if rd["violated"] != dev:
+            raise MachineryError("the alphabets of References.tla cannot tell the deviation %s from the specification: %s" % (
+                dev, rd["out"][-800:]))
+        chk.cov.setdefault("deviations_distinguished", []).append(dev)
     runner = None
     ncases = 0
     for k, (names, files, methods, contexts) in enumerate(fams):
@@ -392,7 +402,7 @@ def run(tier):
         runner.manifest_tlf = {}
         for cid in sorted(ctxs):
             runner.check_context(ctxs[cid])
-        runner.e2e_methods = ("ref", "copy") if "Two" not in methods else ("ref", "copyout")
+        runner.e2e_methods = ("ref", "copy") if methods != "MethodsOne" else ("ref", "ref")
         for case in cases:
             runner.run_case(case, ctxs[case["c"]])
         runner.report()
